@@ -61,6 +61,8 @@ def one_scratch(s):
             return s, None, ['PATCH FAILED ' + r.stderr[:160]]
         env = {'VERIF_REPO': sc, 'VERIF_COMPDB_FROM': '/repo', 'VERIF_CACHE': os.path.join(sc, '.cache'),
                'VERIF_EVID': os.path.join(sc, 'evid')}
+        if '--fast' in sys.argv and not s.startswith('C10'):
+            env['VERIF_SKIP'] = 'C10'      # C10 costs 4 CPU-minutes per run; in fast mode it only runs for the changes written against it
         hit, broken = parse(run_checks(env))
         return s, hit, broken
     finally:
